@@ -166,6 +166,8 @@ mod utils;
 pub mod params;
 pub mod resolvers;
 pub mod types;
+#[cfg(feature = "verif-hooks")]
+pub mod verif;
 
 pub use crate::{
     builder::{Builder, Keypair},
